@@ -190,8 +190,10 @@ def run_concrete(gate, cbuf, delays):
     return [float(cbuf[z + j, 0]) for j in range(gate.cap)], int(nr), int(nf)
 
 
-def K_combos(ar, K, exact=False):
-    return [tuple([K] * ar)] if exact else list(itertools.product(range(K + 1), repeat=ar))
+def K_combos(ar, K, exact=False, total=None):
+    """transition-count tuples per input: all with every entry <= K (and at most `total` transitions overall)"""
+    if exact: return [tuple([K] * ar)]
+    return [k for k in itertools.product(range(K + 1), repeat=ar) if total is None or sum(k) <= total]
 
 
 # ------------------------------------------------------------------------------------------- lemma evaluation (symbolic)
